@@ -287,3 +287,36 @@ def facts_matching(cfg, node, pred) -> list:
 
 def describe(cfg, node) -> str:
     return ", ".join(("" if p else "not ") + t for t, p in sorted(facts(cfg, node))) or "no condition"
+
+
+def expr_facts(root, target) -> set:
+    """Facts that hold when `target` (a sub-expression of `root`) is evaluated, from short-circuit operators and conditional
+    expressions on the way down: in `a or f()` the call runs only if `a` is false."""
+    out: set = set()
+
+    def walk(node) -> bool:
+        if node is target:
+            return True
+        if isinstance(node, ast.BoolOp):
+            for i, v in enumerate(node.values):
+                if walk(v):
+                    for earlier in node.values[:i]:
+                        out.update(canon(earlier, isinstance(node.op, ast.And)))
+                    return True
+            return False
+        if isinstance(node, ast.IfExp):
+            if walk(node.test):
+                return True
+            if walk(node.body):
+                out.update(canon(node.test, True))
+                return True
+            if walk(node.orelse):
+                out.update(canon(node.test, False))
+                return True
+            return False
+        if isinstance(node, (ast.Lambda, ast.FunctionDef, ast.GeneratorExp, ast.ListComp, ast.SetComp, ast.DictComp)):
+            return False
+        return any(walk(ch) for ch in ast.iter_child_nodes(node))
+
+    walk(root)
+    return out
